@@ -11,7 +11,8 @@ _INLINE = re.compile(
     r"|(?P<tag>\{%.*?%\}|\{\{.*?\}\}|\{#.*?#\})"
     r"|(?P<comment><!--.*?-->)"
     r"|(?P<auto><[A-Za-z][A-Za-z0-9+.-]*:[^ <>]*>)"
-    r"|(?P<html></?[A-Za-z][^<>]*>)"
+    # an inline HTML tag as CommonMark defines it (tag name, well-formed attributes): '<see the "docs > api" page>' is prose
+    r"|(?P<html><[A-Za-z][A-Za-z0-9-]*(?:\s+[A-Za-z_:][\w.:-]*(?:\s*=\s*(?:[^\s\"'=<>`]+|'[^']*'|\"[^\"]*\"))?)*\s*/?>|</[A-Za-z][A-Za-z0-9-]*\s*>)"
     r"|(?P<dest>\]\((?:[^()\s]|\([^()]*\))*(?:\s+\"[^\"]*\")?\))"
     r"|(?P<url>(?:https?://|www\.|mailto:)[^\s<>]*)"
     r"|(?P<esc>\\[!-/:-@\[-`{-~])", re.S)
